@@ -5,6 +5,7 @@ CONSTANTS
   TestBit = "tc"
   MaxTcp = 3
   MaxUdp = 2
+  GiveUpResult = "err"
   Export = FALSE
 INVARIANTS TypeOK C17Inv
 PROPERTIES Terminates
